@@ -8,6 +8,6 @@ CONSTANTS
   SfmAtomic = TRUE
   Rotate = TRUE
   Tree = TRUE
-  TreeAtomic = TRUE
-INVARIANTS Durable NoInvent BsuImpliesReadable TreeReadable TypeOK
+  TreeAtomic = FALSE
+INVARIANTS TreeReadable
 CHECK_DEADLOCK FALSE
